@@ -57,6 +57,14 @@ pub struct Oracle {
     // previous view per node (C05 b)
     pub prev_logs: BTreeMap<u32, Vec<LogEnt>>,
     pub c09_checked: BTreeMap<(u32, u64), u64>,
+    // membership (C03 / C26 / C27)
+    pub joins: Vec<(u32, u32, bool)>,
+    /// (candidate, term) -> (candidate + granting voters, voters asked)
+    pub election_votes: BTreeMap<(u32, u64), (BTreeSet<u32>, BTreeSet<u32>)>,
+    pub leader_first_seen: BTreeSet<(u32, u64)>,
+    pub prev_role: BTreeMap<u32, RoleKind>,
+    /// quorums actually used: ("election", term, members) / ("commit", term of the leader, holders)
+    pub used_quorums: Vec<(String, u64, u64, BTreeSet<u32>)>,
 }
 
 fn cmd_hash(c: &Command) -> u64 {
@@ -83,6 +91,7 @@ impl Oracle {
         self.start_applied.insert((id, inc), last_applied);
         self.next_expected.insert((id, inc), last_applied + 1);
         self.prev_logs.remove(&id);
+        self.prev_role.remove(&id);
     }
 
     pub fn on_vote_request(&mut self, _candidate: u32, _term: u64) {}
@@ -127,6 +136,54 @@ impl Oracle {
         self.elections.push((cand, term, granted, peers));
     }
 
+    pub fn on_election_quorum(&mut self, cand: u32, term: u64, granters: Vec<u32>, asked: Vec<u32>) {
+        let mut q: BTreeSet<u32> = granters.into_iter().collect();
+        q.insert(cand);
+        self.election_votes.insert((cand, term), (q, asked.into_iter().collect()));
+    }
+
+    /// C26: quorums that were actually USED must intersect where Raft needs them to:
+    /// two election quorums of one term, and an election quorum of term T with every commit
+    /// quorum of an earlier term.
+    pub fn check_quorums(&mut self) {
+        let qs = self.used_quorums.clone();
+        for (i, (ka, ta, na, qa)) in qs.iter().enumerate() {
+            for (kb, tb, nb, qb) in qs.iter().skip(i + 1) {
+                let disjoint = qa.intersection(qb).next().is_none();
+                if !disjoint {
+                    continue;
+                }
+                let bad = match (ka.as_str(), kb.as_str()) {
+                    ("election", "election") => ta == tb && na != nb,
+                    ("election", "commit") => tb < ta,
+                    ("commit", "election") => ta < tb,
+                    _ => false,
+                };
+                if bad {
+                    self.violate(
+                        "C26",
+                        format!("{ka}{ta}n{na}-{kb}{tb}n{nb}"),
+                        format!(
+                            "two quorums that were actually used do not intersect: {ka} by node {na} in term {ta} used {qa:?}, {kb} by node {nb} in term {tb} used {qb:?}"
+                        ),
+                    );
+                }
+            }
+        }
+    }
+
+    pub fn on_commit_quorum(&mut self, leader: u32, term: u64, holders: BTreeSet<u32>) {
+        let key = ("commit".to_string(), term, leader as u64, holders);
+        if !self.used_quorums.contains(&key) {
+            self.used_quorums.push(key);
+            self.check_quorums();
+        }
+    }
+
+    pub fn on_join_answer(&mut self, node: u32, leader: u32, success: bool) {
+        self.joins.push((node, leader, success));
+    }
+
     /// Called after every single turn of a node.
     pub fn observe(
         &mut self,
@@ -156,7 +213,39 @@ impl Oracle {
             self.leader_seen.entry(v.term).or_default().insert(v.id);
             // commit index inherited from the follower role is not an advance made as leader
             self.c09_checked.entry((v.id, v.term)).or_insert(v.commit);
+            // a role transition into Leader (a leader whose term was bumped while its step-down
+            // is queued is not a new leadership)
+            let was_leader = self.prev_role.get(&v.id) == Some(&RoleKind::Leader);
+            if !was_leader && self.leader_first_seen.insert((v.id, v.term)) {
+                // ---- C03: leadership without anybody else's vote only as the sole voter
+                let active = d_engine_proto::common::NodeStatus::Active as i32;
+                let other_voters: Vec<u32> = v
+                    .members
+                    .iter()
+                    .filter(|(id, _, status)| *id != v.id && *status == active)
+                    .map(|(id, _, _)| *id)
+                    .collect();
+                let votes = self.election_votes.get(&(v.id, v.term)).cloned();
+                let others_granted = votes.as_ref().map(|(q, _)| q.len().saturating_sub(1)).unwrap_or(0);
+                if others_granted == 0 && !other_voters.is_empty() {
+                    self.violate(
+                        "C03",
+                        format!("n{}t{}", v.id, v.term),
+                        format!(
+                            "node {} became leader of term {} without any other node's vote although its membership lists other voters {:?}",
+                            v.id, v.term, other_voters
+                        ),
+                    );
+                }
+                if let Some((q, _)) = votes {
+                    self.used_quorums.push(("election".into(), v.term, v.id as u64, q));
+                } else {
+                    self.used_quorums.push(("election".into(), v.term, v.id as u64, [v.id].into_iter().collect()));
+                }
+                self.check_quorums();
+            }
         }
+        self.prev_role.insert(v.id, v.role);
         for r in out_reqs {
             self.acted.entry(r.term).or_default().insert(r.leader_id);
         }
